@@ -50,6 +50,7 @@ func main() {
 		}
 		rec()
 	})
+	longInputs(run)
 	redirectGuard(run)
 	run.SetExtra("exhaustive_subspace", fmt.Sprintf("every string over %q up to length %d: enumerated completely", alphabet, maxLen))
 	pieces := []string{"/", "//", "a", "ab", ".", "..", "/./", "/../", "é", "日本", "%2F", "%2e", "a.b", "...", "x/", "/x", "..a", "a..", " "}
@@ -87,6 +88,63 @@ func main() {
 			}
 		}
 	})
+}
+
+// longInputs: lengths around every power of two up to 128 KiB (buffers, pools and size classes change there), rooted
+// and unrooted, already clean and with a rewrite at the start, in the middle or at the very end. The same list is
+// walked twice, upwards and downwards, so that whatever one call leaves behind is met by shorter and by longer inputs.
+func longInputs(run *kit.Run) {
+	var lens []int
+	for p := 64; p <= 1<<17; p <<= 1 {
+		lens = append(lens, p-2, p-1, p, p+1, p+2)
+	}
+	lens = append(lens, 100, 1000, 3000, 5000, 10000, 70000)
+	mk := func(n int, rooted bool, variant int) string {
+		var sb strings.Builder
+		if rooted {
+			sb.WriteByte('/')
+		}
+		seg := []string{"abcdefg/", "x/", "hello.world/", "é/"}
+		for i := 0; sb.Len() < n; i++ {
+			sb.WriteString(seg[i%len(seg)])
+		}
+		s := sb.String()[:n]
+		switch variant {
+		case 1: // rewrite at the very end
+			if n > 4 {
+				s = s[:n-3] + "/./"[:3]
+			}
+		case 2: // rewrite in the middle
+			s = s[:n/2] + "//" + s[n/2+2:]
+		case 3: // rewrite at the start
+			if rooted {
+				s = "/../" + s[4:]
+			} else {
+				s = "./" + s[2:]
+			}
+		case 4: // ends in a dot-dot element
+			if n > 4 {
+				s = s[:n-3] + "/.."
+			}
+		}
+		return s
+	}
+	cases := 0
+	for pass := 0; pass < 2; pass++ {
+		for i := range lens {
+			n := lens[i]
+			if pass == 1 {
+				n = lens[len(lens)-1-i]
+			}
+			for _, rooted := range []bool{true, false} {
+				for v := 0; v < 5; v++ {
+					one(run, mk(n, rooted, v))
+					cases++
+				}
+			}
+		}
+	}
+	run.Count("long_inputs", int64(cases))
 }
 
 type redirW struct {
